@@ -435,6 +435,7 @@ func runFaultSuite(rep *Report, tier string, seed int64, prop string) {
 			c16ManyInFlight(rep, prop, api, 1300)
 		}
 		c16CauseContexts(rep, prop)
+		c16CancelDuringConnectHook(rep, prop)
 		for _, api := range apis() {
 			for _, how := range []string{"cancelled", "deadline"} {
 				rep.Evaluations++
